@@ -1,8 +1,12 @@
 """C11 - ancestry queries and merge-base selection agree with the commit graph.
 
-(A) TLC explores spec/GraphGen.tla: every history of NC commits (<= 2 parents in both orders, plus
-    the 3-parent octopus shapes) x every assignment of times {1,2,3}; the invariant ModelOK checks
-    that the modelled frontier queue meets the contract of spec/Graph.tla on each of them.
+(A) TLC explores spec/GraphGen.tla: every history of 4 commits (<= 2 parents in both orders, plus
+    the 3-parent octopus shapes) x every assignment of times {1,2,3}; every history of 5 commits
+    under three clocks (quick) and under every assignment of times {1,2,3} (thorough).  The
+    invariant ModelOK checks on each of them that the modelled frontier queue (walk, ancestor test
+    by exhaustion) meets the contract of spec/Graph.tla.  The transcription SeekAsCoded of
+    ref.SeekCommonAncestor is evaluated too: the tuples on which it leaves the contract are
+    exported as model-level counterexamples (never a verdict by themselves).
 (B) every history is one scenario line carrying, computed by TLC, the ancestor sets and per set of
     merge inputs AllowedBases/CommonAnc; the harness builds real commits and asks the real
     ref.IsAncestorOf (all pairs), CommitsQueue.PopInsertParents walks (every start) and
@@ -10,8 +14,14 @@
 (C) seeded random histories of 20-60 commits are queried on the real code and the recorded trace
     is validated by spec/TraceGraph.tla, which computes ancestry and allowed bases itself.
 
-Helpers that vlib.py lacks live here: per-signature expansion of one failing scenario, and a trace
-validation loop that collects the "named deviation" lines TraceGraph prints."""
+Signatures: graph/isanc/<false-negative|false-positive|error>/clock=<mono|tie|skew|none>,
+graph/walk/<duplicate|missing|foreign|endless|error>/clock=..., graph/seek/<kind>/heads=<1|2|3+> with
+kind in missing-but-exists, found-but-none, not-input-base, not-common-ancestor, foreign.
+
+Helpers that vlib.py lacks live here: per-signature expansion of one failing scenario (absorb), a
+trace validation that collects the lines TraceGraph prints for the named deviation and falls back
+to a labelling pass (validate), and an ordering of violations so that each distinct signature gets
+its replay file (flush)."""
 import json, os, re
 import vlib
 
@@ -25,12 +35,13 @@ ALL_SEEK_SIGS = ["graph/seek/%s/%s" % (k, h) for k in SEEK_KINDS for h in SEEK_H
 
 # --------------------------------------------------------------------------- (A)+(B)
 
-def gen_cfg(name, nc, k, ordered, octopus=True, coded=True):
+def gen_cfg(name, nc, k, ordered, octopus=True, coded=True, allclocks=True):
     d = vlib.spec_copy()
     b = lambda x: "TRUE" if x else "FALSE"
     with open(os.path.join(d, name), "w") as f:
         f.write("SPECIFICATION Spec\nCONSTANTS NC = %d\n K = %d\n Ordered = %s\n Octopus = %s\n WithCoded = %s\n"
-                "INVARIANT Inv\nCHECK_DEADLOCK FALSE\n" % (nc, k, b(ordered), b(octopus), b(coded)))
+                " AllClocks = %s\nINVARIANT Inv\nCHECK_DEADLOCK FALSE\n"
+                % (nc, k, b(ordered), b(octopus), b(coded), b(allclocks)))
     return name
 
 
@@ -206,9 +217,13 @@ def run(tier, seed):
     known = [s for s in ALL_SEEK_SIGS if v._match_known(s, None) is not None]
 
     # (A)+(B)
-    universes = [("n4", gen_cfg("GraphGen.n4.cfg", 4, 4, True))]
+    # n4: complete (both parent orders, all clocks, all tuple sizes, with the model-level counterexamples);
+    # n5c: every 5-commit shape under three clocks (equal / increasing / decreasing), pairs and triples,
+    #      with the model-level counterexamples; n5 (thorough): every 5-commit shape x all clocks.
+    universes = [("n4", gen_cfg("GraphGen.n4.cfg", 4, 4, True)),
+                 ("n5c", gen_cfg("GraphGen.n5c.cfg", 5, 3, False, allclocks=False))]
     if tier == "thorough":
-        universes.append(("n5", gen_cfg("GraphGen.n5.cfg", 5, 3, False)))
+        universes.append(("n5", gen_cfg("GraphGen.n5.cfg", 5, 3, False, coded=False)))
     stats = {"model_dev_tuples": 0, "model_dev_reproduced": 0, "failing_scenarios": 0, "failing_classes": {},
              "mismatch_scenarios_by_sig": {}, "real_deviation_not_in_model": 0}
     states = transitions = scenarios = 0
@@ -261,9 +276,11 @@ def run(tier, seed):
         "trace_events_missing_the_contract": tv["misses"],
         "evaluations": scenarios + tv["n_traces"],
         "distinct_nontrivial": nontrivial,
-        "rule": "one scenario = one history (parent lists of NC commits, <=2 parents in both orders plus the 3-parent "
-                "octopus shapes; n=5 in the thorough tier with parent sets) x one assignment of times {1,2,3}; TLC "
-                "enumerates them all and prints each once (distinct TLC states). Per scenario the real code answers "
+        "rule": "one scenario = one history x one clock. n4: 4 commits, <=2 parents in both orders plus the 3-parent "
+                "octopus shapes, x every assignment of times {1,2,3}; n5c: every 5-commit shape (parent sets, octopus) x "
+                "three clocks (equal, increasing, decreasing); n5 (thorough tier): every 5-commit shape x every "
+                "assignment of times {1,2,3}. TLC enumerates each universe completely and prints each scenario once "
+                "(distinct TLC states). Per scenario the real code answers "
                 "every ancestor pair, a walk from every commit and every tuple of 2..K commits with all orders and "
                 "repetitions. Non-trivial = the history has at least one parent link; classes = clock class "
                 "(mono/tie/skew) / shape / number of roots",
